@@ -58,6 +58,9 @@ type commandUnit struct {
 	baseParams         string
 	allowRuntimeParams bool
 	done               bool
+	// launchLock is held while the runner process is being launched, so that Cancel sees either
+	// no runner at all or a runner whose pid has been recorded.
+	launchLock sync.Mutex
 }
 
 // CommandExtraData is the content of the ExtraData JSON field for a command worker.
@@ -261,7 +264,15 @@ func (cw *commandUnit) runCommand(cmd *exec.Cmd) error {
 	cw.done = false
 	cmd.Stdout = os.Stdout
 	cmd.Stderr = os.Stderr
+	cw.launchLock.Lock()
+	if cw.GetContext().Err() != nil {
+		// Cancelled or released before the runner was launched: do not launch it any more.
+		cw.launchLock.Unlock()
+
+		return fmt.Errorf("work unit was cancelled before its runner was started")
+	}
 	if err := cmd.Start(); err != nil {
+		cw.launchLock.Unlock()
 		cw.UpdateBasicStatus(WorkStateFailed, fmt.Sprintf("Failed to start command runner: %s", err), 0)
 
 		return err
@@ -272,6 +283,7 @@ func (cw *commandUnit) runCommand(cmd *exec.Cmd) error {
 		}
 		status.ExtraData.(*CommandExtraData).Pid = cmd.Process.Pid
 	})
+	cw.launchLock.Unlock()
 	doneChan := make(chan bool)
 	go func() {
 		<-doneChan
@@ -333,6 +345,10 @@ func (cw *commandUnit) Restart() error {
 // Cancel stops a running job.
 func (cw *commandUnit) Cancel() error {
 	cw.CancelContext()
+	// Wait for a launch in progress: a runner that exists has its pid recorded after this, and no
+	// runner is launched later because the context is cancelled.
+	cw.launchLock.Lock()
+	cw.launchLock.Unlock() //nolint:staticcheck
 	status := cw.Status()
 	ced, ok := status.ExtraData.(*CommandExtraData)
 	if !ok || ced.Pid <= 0 {
